@@ -217,7 +217,9 @@ func sync_runtime_notifyListAdd(l *notifyList) uint32 {
 func sync_runtime_notifyListWait(l *notifyList, t uint32) {
 	st := getNotifyState(l)
 	st.mu.Lock()
-	for latomic.LoadUint32(&l.notify) == t {
+	// Ticket t has been notified once it is below l.notify (wrap-aware, as
+	// less() in Go's runtime/sema.go).
+	for int32(t-latomic.LoadUint32(&l.notify)) >= 0 {
 		st.cond.Wait(&st.mu)
 	}
 	st.mu.Unlock()
@@ -238,7 +240,9 @@ func sync_runtime_notifyListNotifyOne(l *notifyList) {
 	st.mu.Lock()
 	if latomic.LoadUint32(&l.notify) != latomic.LoadUint32(&l.wait) {
 		latomic.AddUint32(&l.notify, 1)
-		st.cond.Signal()
+		// pthread_cond_signal may wake a waiter whose ticket is not due; it
+		// would sleep again and the due one would never be woken.
+		st.cond.Broadcast()
 	}
 	st.mu.Unlock()
 }
